@@ -324,7 +324,8 @@ class SkipgramCase(Case):
         ntrain = tape.between("sg.ntrain", 2, max(2, len(c.pool) - 2))
         c.train_ids = list(range(ntrain))
         c.params = {"window_radius": tape.choice("sg.radius", [1, 2, 4]),
-                    "kernel_function": tape.choice("sg.kernel", ["flat", "harmonic"])}
+                    "kernel_function": tape.choice("sg.kernel", ["flat", "harmonic"]),
+                    "window_function": tape.weighted("sg.winfn", [(3, "fixed"), (1, "variable")])}
         c.user_dict = {f"w{i}": i for i in range(vocab)} if tape.chance("sg.userdict", 1, 3) else None
         c.ignored = {"w0"} if (c.user_dict is None and tape.chance("sg.ignored", 1, 4)) else None
         c.desc.update(params=dict(c.params), user_token_dictionary=c.user_dict is not None, pool=len(c.pool), ntrain=ntrain,
